@@ -119,10 +119,10 @@ def judge_call(obj, args, kwargs, result, expect_outside=False, twin_logd=None):
     ok | mismatch | size | none | not_array | outside_ok | outside_finite | unjudged."""
     ev = {"cls": type(obj).__name__, "mode": "analytic", "status": "unjudged", "why": "", "detail": "", "ncomp": 0}
     fd_on = bool(getattr(obj, "FD_enabled", False))
-    if fd_on and not _overrides_gradient(obj):
+    if fd_on:
+        # FD option on: the result must be the forward quotient of the same logd or the derivative within the
+        # modelled forward-difference error (an analytic override that is exact passes the second test as well)
         ev["mode"] = "fd"
-    elif fd_on:
-        ev["mode"] = "fd_ignored"
     if result is None:
         ev.update(status="none", detail="gradient returned None instead of raising")
         return ev
